@@ -114,6 +114,9 @@ func c10Prop(st *CaseStats, fam int) func(t *rapid.T) {
 		if fam == FamWide {
 			modes = []uint32{1025, 1025, 1024, 100, 7}
 		}
+		if fam == FamSparse {
+			modes = SparseModes
+		}
 		batches := make([]Batch, k)
 		lmodes := make([]uint32, k)
 		drops := make([]*roaring.Bitmap, k)
@@ -130,6 +133,9 @@ func c10Prop(st *CaseStats, fam int) func(t *rapid.T) {
 				batches[i], bd = p.Batch(sc), p.String()
 			case FamWide:
 				p := GenWide(t)
+				batches[i], bd = p.Batch(sc), p.String()
+			case FamSparse:
+				p := GenSparse(t)
 				batches[i], bd = p.Batch(sc), p.String()
 			case FamBig:
 				batches[i] = GenBatchBig(t, sc)
@@ -557,4 +563,10 @@ func TestC10Big(t *testing.T) {
 	st := NewStats("C10Big", c10Rule)
 	defer st.Flush()
 	rapid.Check(t, c10Prop(st, FamBig))
+}
+
+func TestC10Sparse(t *testing.T) {
+	st := NewStats("C10Sparse", c10Rule)
+	defer st.Flush()
+	rapid.Check(t, c10Prop(st, FamSparse))
 }
